@@ -24,14 +24,16 @@ import (
 	"github.com/foxcpp/maddy/internal/verifshim/vlim"
 )
 
-// Key spelling: ip id x = 127.0.0.x, domain id d = d<d>.example; domain ids 500+ have no reachable MX.
+// Key spelling: source addresses (msgMeta.Conn.RemoteAddr) are ids of the table in vlim (IPv4 id x = 127.0.0.x;
+// IPv6, IPv4-mapped, ...), the bucket key the code derives from each is observed (c11rKeys); domain id d =
+// d<d>.example; domain ids 500+ have no reachable MX.
+func c11rV4(id int) net.IP { return net.IPv4(127, 0, byte(id/256), byte(id%256)) }
+
+var c11rKeys = vlim.NewIPKeys(c11rV4)
+
 func c11rKeyID(scope int, k string) int {
 	if scope == 1 {
-		ip := net.ParseIP(k).To4()
-		if ip == nil {
-			return -1
-		}
-		return int(ip[3])
+		return c11rKeys.KeyID(k)
 	}
 	if k == "" {
 		return 0
@@ -251,7 +253,14 @@ type c11RemCase struct {
 }
 
 func (c *c11RemCase) opLine() string {
-	return "C11 rem " + c.cfg.String() + " " + strings.Join(c.ops, " ")
+	var addrs []int
+	for _, o := range c.ops {
+		if f := strings.Split(o, "."); f[0] == "s" && len(f) > 2 {
+			a, _ := strconv.Atoi(f[2])
+			addrs = append(addrs, a)
+		}
+	}
+	return "C11 rem " + c.cfg.String() + " " + strings.Join(append(c11rKeys.Tokens(addrs), c.ops...), " ")
 }
 
 func (c *c11RemCase) bump(sc, k, d int) {
@@ -361,7 +370,7 @@ func (c *c11RemCase) exec(op string) bool {
 			from = ""
 		}
 		meta := &module.MsgMetadata{ID: fmt.Sprintf("c11-%d", id), DontTraceSender: true,
-			Conn: &module.ConnState{RemoteAddr: &net.TCPAddr{IP: net.IPv4(127, 0, 0, byte(ip)), Port: 1234}}}
+			Conn: &module.ConnState{RemoteAddr: &net.TCPAddr{IP: vlim.Addr(ip, c11rV4), Port: 1234}}}
 		flag := ""
 		if len(f) == 5 {
 			flag = f[4]
@@ -381,7 +390,7 @@ func (c *c11RemCase) exec(op string) bool {
 		if err == nil {
 			c.ds[id] = &c11Deliv{d: d, ip: ip, dom: dom, dests: map[int]bool{}, rt: flag == "rt"}
 			c.bump(0, 0, 1)
-			c.bump(1, ip, 1)
+			c.bump(1, vlim.MonID(ip), 1)
 			c.bump(2, dom, 1)
 		}
 	case "a":
@@ -484,7 +493,7 @@ func (c *c11RemCase) exec(op string) bool {
 			c.bump(3, dd, -1)
 		}
 		c.bump(0, 0, -1)
-		c.bump(1, dl.ip, -1)
+		c.bump(1, vlim.MonID(dl.ip), -1)
 		c.bump(2, dl.dom, -1)
 		delete(c.ds, id)
 	default:
@@ -510,6 +519,7 @@ func c11RemRun(out *vh.Out, t *testing.T, cfg vlim.Cfg, r *vh.Rng, fixed []strin
 	c := &c11RemCase{out: out, cfg: cfg, g: g, tgt: tgt, be: be, ds: map[int]*c11Deliv{}}
 	ok := true
 	if fixed != nil {
+		fixed = vlim.StripKeyTokens(fixed)
 		for _, op := range fixed {
 			if ok = c.exec(op); !ok {
 				break
@@ -519,6 +529,10 @@ func c11RemRun(out *vh.Out, t *testing.T, cfg vlim.Cfg, r *vh.Rng, fixed []strin
 		n := 8 + r.Intn(25)
 		next := 1
 		nDom := 1 + r.Intn(4)
+		apool := vlim.AddrPool(r.Intn, 3)
+		for _, a := range apool {
+			out.Stat("rem:addr:" + vlim.AddrClass(a))
+		}
 		// how often the next hop loses the connection (421 / drop / time-out) instead of answering
 		lossy := []int{0, 15, 40, 70}[r.Intn(4)]
 		pool := []int{0, 0, 2, 10}[r.Intn(4)]
@@ -556,7 +570,7 @@ func c11RemRun(out *vh.Out, t *testing.T, cfg vlim.Cfg, r *vh.Rng, fixed []strin
 				} else if x < 13 {
 					flag = ".rt"
 				}
-				ok = c.exec(fmt.Sprintf("s.%d.%d.%d%s", next, 1+r.Intn(3), dom, flag))
+				ok = c.exec(fmt.Sprintf("s.%d.%d.%d%s", next, apool[r.Intn(len(apool))], dom, flag))
 				next++
 			case x < 75:
 				id := ids[r.Intn(len(ids))]
@@ -689,6 +703,7 @@ func c11RemConcCase(out *vh.Out, t *testing.T, be *c11Backend, cfg vlim.Cfg, see
 	// derived from the seed, so that the op line stays replayable: pool on/off, how often the next hop loses
 	// the connection (421 / drop / time-out) at MAIL, RCPT, DATA
 	cr := vh.NewRng(seed*77 + 5)
+	apool := vlim.AddrPool(vh.NewRng(seed*31+5).Intn, 3)
 	tgt.connReuseLimit = []int{0, 2, 10}[cr.Intn(3)]
 	lossy := []int{0, 20, 50}[cr.Intn(3)]
 	out.Stat(fmt.Sprintf("remconc:pool:%d:lossy:%d", tgt.connReuseLimit, lossy))
@@ -722,10 +737,10 @@ func c11RemConcCase(out *vh.Out, t *testing.T, be *c11Backend, cfg vlim.Cfg, see
 			}()
 			r := vh.NewRng(seed*31 + uint64(w))
 			for round := 0; round < 3; round++ {
-				ip, dom := 1+r.Intn(3), 1+r.Intn(nDom)
+				ip, dom := apool[r.Intn(3)], 1+r.Intn(nDom)
 				ctx, cancel := context.WithTimeout(context.Background(), time.Duration(20+r.Intn(400))*time.Millisecond)
 				meta := &module.MsgMetadata{ID: fmt.Sprintf("c11c-%d-%d", w, round), DontTraceSender: true,
-					Conn: &module.ConnState{RemoteAddr: &net.TCPAddr{IP: net.IPv4(127, 0, 0, byte(ip)), Port: 1}}}
+					Conn: &module.ConnState{RemoteAddr: &net.TCPAddr{IP: vlim.Addr(ip, c11rV4), Port: 1}}}
 				d, err := tgt.Start(ctx, meta, "s@"+c11rDom(dom))
 				if err != nil {
 					atomic.AddInt64(&nStartTO, 1)
@@ -734,7 +749,7 @@ func c11RemConcCase(out *vh.Out, t *testing.T, be *c11Backend, cfg vlim.Cfg, see
 				}
 				atomic.AddInt64(&nStart, 1)
 				bump(0, 0, 1)
-				bump(1, ip, 1)
+				bump(1, vlim.MonID(ip), 1)
 				bump(2, dom, 1)
 				dests := map[int]bool{}
 				for j := r.Intn(3); j > 0; j-- {
@@ -765,7 +780,7 @@ func c11RemConcCase(out *vh.Out, t *testing.T, be *c11Backend, cfg vlim.Cfg, see
 					bump(3, dd, -1)
 				}
 				bump(0, 0, -1)
-				bump(1, ip, -1)
+				bump(1, vlim.MonID(ip), -1)
 				bump(2, dom, -1)
 				switch r.Intn(3) {
 				case 0:
